@@ -17,7 +17,10 @@ ORDERS = {1: 1, 2: 2, 3: 4, 4: 8, 5: 6, 6: 12, 7: 24}
 
 
 def units(tier):
-    return [(i, 1750) for i in range(8)] if tier == "quick" else [(i, 40000) for i in range(16)]
+    if tier == "quick":
+        return [(i, 1750) for i in range(8)]
+    # plain generation for the bulk, plus four small units in which Hypothesis hill-climbs on the residual/tolerance ratios
+    return [(i, 40000) for i in range(16)] + [("target-%d" % i, 2500) for i in range(4)]
 
 
 def conf_cell(system, a, b, c, al, be, ga_u):
